@@ -80,7 +80,7 @@ def plan(tier, seed):
 HIST = []  # earlier sort calls of this process: a failure may depend on them
 
 
-def judge(res, g, recs, in_variant, bgzip, scratch, tagname="x", record_history=True):
+def judge(res, g, recs, in_variant, bgzip, scratch, tagname="x", record_history=True, large=False):
     gfa_path = os.path.join(scratch, "g.gfa")
     fw.write_text(gfa_path, g.text())
     text = "".join(r.line() + "\n" for r in recs)
@@ -90,6 +90,8 @@ def judge(res, g, recs, in_variant, bgzip, scratch, tagname="x", record_history=
     out = sc.run_sort(scratch, gfa_path, gaf, outgaf=outp, outind=os.path.join(scratch, f"{tagname}.gsi"), bgzip=bgzip)
     res.count("sort_runs")
     case = {"gfa": g.text(), "records": [r.line() for r in recs], "in_variant": list(in_variant), "bgzip": bgzip}
+    if large:
+        case = {"large": len(recs), "nchrom": 2, "gfa": g.text(), "in_variant": list(in_variant), "bgzip": bgzip}
     if record_history:
         case["preceded_by"] = [h for h in HIST[-1:] if h["gfa"] != case["gfa"]]
         if not HIST or HIST[-1]["gfa"] != case["gfa"]:
@@ -175,6 +177,14 @@ def run_shard(spec, tier, scratch):
             judge(res, g, sm, variant, bool(i % 2), scratch)
             res.count("bgzf_layouts")
     elif part == "big":
+        # many records (beyond 2^15) ...
+        many = []
+        for i in range(40_003):
+            r = recs[(i * 13) % len(recs)]
+            many.append(rgfa.Rec(f"m{i}", *r.cols()[1:], opt=r.opt))
+        judge(res, g, many, ("plain",), False, scratch, record_history=False, large=True)
+        res.count("large_file_records", len(many))
+        # ... and few but long records (beyond one 64 KiB block)
         big = vi.pad_records(recs[:60], 200_000)
         for inv in (("plain",), ("bgzip64k",), ("pysam",)):
             for bgzip in (False, True):
@@ -186,6 +196,15 @@ def run_shard(spec, tier, scratch):
 def replay(case, scratch):
     res = fw.ShardResult()
     g = rgfa.Graph.parse(case["gfa"])
+    if "large" in case:
+        g2, chains = build(case["nchrom"])
+        base = records(g2, chains, 3)
+        many = []
+        for i in range(case["large"]):
+            r = base[(i * 13) % len(base)]
+            many.append(rgfa.Rec(f"m{i}", *r.cols()[1:], opt=r.opt))
+        judge(res, g, many, ("plain",), False, scratch, record_history=False, large=True)
+        return res.failures
     recs = [rgfa.Rec.parse(l) for l in case["records"]]
     v = case["in_variant"]
     variant = tuple(v) if v[0] != "bgzf" else ("bgzf", v[1], v[2], v[3])
